@@ -43,7 +43,8 @@ SHARD_TIMEOUT = {'quick': 400, 'thorough': 3000}
 MAXB = 1000
 FRAMES = ['2probe', '2', '2x', '3probe', '4hi', '5', '5x', 'x', '',
           'bin:2probe', 'over', 'over8']
-CLOSE_AT = ['before', 'after1', 'after2', 'never', 'writes-fail']
+CLOSE_AT = ['before', 'after1', 'after2', 'never', 'writes-fail',
+            'pipelined']
 CONC = ['none', 'poll', 'queued', 'during', 'all']
 CONV = ['none', 'raise']
 AU = [True, False]
@@ -236,7 +237,23 @@ def _run(rec, sim, R, V, f1, f2, cl, conc, au, tr, srv):
         # transport fault: every write of the server on this socket fails
         # (the probe answer cannot be sent); reads still work
         ws.send_fails = True
-    if cl == 'before':
+    if cl == 'pipelined':
+        # both frames and the Close in one burst, without waiting for any
+        # answer: either the server wrote PONG probe before it acted on the
+        # UPGRADE (then the handshake completed and the close ended the
+        # session), or the handshake failed and the session is on polling
+        rec.count('pipelined_handshakes')
+        ws.send(frame_value(f1))
+        ws.send(frame_value(f2))
+        ws.close()
+        closed = True
+        sim.quiesce()
+        sample('pipelined')
+        probed = f1 == '2probe' and '3probe' in ws.texts()
+        complete = probed and is_upgrade(f2)
+        if complete:
+            return
+    elif cl == 'before':
         ws.close()
         closed = True
         sim.quiesce()
